@@ -3,6 +3,19 @@
 
 #include <nstd/Base.hpp>
 
+#ifdef NSTD_VERIF
+// verification hook (add-only, compiled out without -DNSTD_VERIF): a controlled scheduler may
+// provide nv_rc_yield to make the plain read of a reference counter and the in-place write it
+// guards scheduling points; without such a definition the hook does nothing
+extern "C" void nv_rc_yield(const char* where, const volatile void* addr) __attribute__((weak));
+#define NSTD_VERIF_RC_HOOKS 1
+#define NSTD_VERIF_RC_YIELD(where, addr) do { if(nv_rc_yield) nv_rc_yield(where, addr); } while(0)
+#define NSTD_VERIF_RC_YIELD_EXPR(where, addr) (nv_rc_yield ? nv_rc_yield(where, addr) : (void)0),
+#else
+#define NSTD_VERIF_RC_YIELD(where, addr)
+#define NSTD_VERIF_RC_YIELD_EXPR(where, addr)
+#endif
+
 class Atomic
 {
 public:
